@@ -329,6 +329,15 @@ func (e *Exec) Branch(cond *Term) bool {
 	if cond.op == OpConst {
 		return cond.val != 0
 	}
+	// already decided on this path (2-copy harnesses repeat the same conditions)
+	for _, c := range e.pcs {
+		if c == cond {
+			return true
+		}
+		if c.op == OpNot && c.a[0] == cond || cond.op == OpNot && cond.a[0] == c {
+			return false
+		}
+	}
 	// solver-side concretisation of memory reads compared with constants
 	t := cond
 	if t.op == OpNot {
